@@ -45,6 +45,15 @@ Clause → theorem
                                                                 iform_unforwarded_counterexample (defect #16, repaired)
   … and cuts everything between the returned candidate and the previous one        xmax_cuts_between_candidates (known finding)
   MC agreement of conditional samples / IFORM ≈ transformed IFORM              PARTIAL — observed per run
+  Monte-Carlo sample sizes (`precision_factor` in [0.1, 1]; Model/McSize.lean over ℚ, int = Nat.floor):
+  marginal_icdf draws max(⌊(1/p_small)·100·pf⌋, 100000) points ⇒ p_small·n > 100·pf − p_small      marginalN_exceedances,
+                                                                marginalN_ge_floor, marginalN_eq_formula, marginalN_mono_pf
+  conditional_icdf: 100000 ≤ n ≤ 10^7, formula in between, exceedances unless capped, monotone    condN_bounds, condN_eq_formula,
+                                                                condN_exceedances, condN_mono_pf, clampN_bounds, clampN_eq
+  p_small                                                       pSmallMarginal_le, pSmallCond_le_half, pSmallCond_pos
+  (the Float instance of the same definitions is compared with the n the real code requests, harness part F)
+  `iform_seeded_reproducible` is `rfl` on an abstract two-step model (same seed ⇒ same streams); that the code
+  forwards the model's random_state to every Monte-Carlo step is observed per run, not proven.
 -/
 import VirVerif.Model.Transform
 import VirVerif.Model.Rejection
